@@ -61,6 +61,7 @@ def install(eng):
     bn['time'] = PyObj('module', 'time')
     bn['bytes'] = PyObj('type', 'bytes')
     bn['str'] = PyObj('type', 'str')
+    bn['bytearray'] = PyObj('type', 'bytearray')
     bn['int'] = PyObj('builtin', b_int)
     bn['float'] = PyObj('builtin', b_float)
     bn['bool'] = PyObj('type', 'bool')
@@ -84,6 +85,8 @@ def install(eng):
     prims_smt.install(eng)
     from . import twisted_model
     twisted_model.install(eng)
+    from . import stdlib_model
+    stdlib_model.install(eng)
 
 
 # ---------------------------------------------------------------------------------------------- logging
@@ -93,6 +96,8 @@ LOG_METHODS = {'debug', 'info', 'warning', 'warn', 'error', 'exception', 'critic
 
 def is_logging_call(node):
     f = node.func
+    if isinstance(f, ast.Attribute) and f.attr == 'warn' and isinstance(f.value, ast.Name) and f.value.id == 'warnings':
+        return True           # warnings.warn(...) is dropped like logging (extraction rule)
     if isinstance(f, ast.Attribute) and f.attr in LOG_METHODS:
         b = f.value
         if isinstance(b, ast.Name) and b.id in ('log', 'logger', '_log'):
@@ -418,6 +423,8 @@ def isinstance_z3(eng, v, tobj):
         return z3.FreshConst(z3.BoolSort(), 'isinst')
     if isinstance(tobj, PyObj) and tobj.kind in ('type', 'builtin'):
         name = tobj.payload if tobj.kind == 'type' else getattr(tobj.payload, '__name__', '')[2:]
+        if name == 'bytearray' or v.ty == T.BYTEARRAY:
+            return z3.BoolVal(name == 'object' or (name == 'bytearray') == (v.ty == T.BYTEARRAY) and v.ty[0] == 'bytes')
         kinds = TYPE_KINDS.get(name)
         if kinds is None:
             if name == 'object':
@@ -467,6 +474,31 @@ def b_type(eng, args, kwargs, fr, node):
     if isinstance(v, V) and v.ty == BYTES:
         return PyObj('type', 'bytes')
     raise_unsupported('type() of %r' % (v,))
+
+
+def b_octets(eng, args, kwargs, fr, node):
+    """contract language: the octets a key stands for - UTF-8 of a str, the content of bytes / bytearray"""
+    v = args[0]
+    if v.ty == STR:
+        from .engine import UF
+        b = UF('enc_utf8', T.StrSort, T.BytesSort)(v.t)
+        return V(BYTES, b)
+    if v.ty[0] == 'bytes':
+        return V(BYTES, v.t)
+    raise_unsupported('octets() of %s' % (v.ty,))
+
+
+def type_call(eng, name, args, kwargs, fr, node):
+    """bytes(x) / bytearray(x) / bytearray(s, "UTF-8") as conversions"""
+    if name in ('bytes', 'bytearray') and len(args) == 1 and isinstance(args[0], V) and args[0].ty[0] == 'bytes':
+        return V(BYTES if name == 'bytes' else T.BYTEARRAY, args[0].t)
+    if name == 'bytearray' and len(args) == 2 and isinstance(args[0], V) and args[0].ty == STR:
+        from .engine import PyObj
+        b = call_method(eng, PyObj('method', (args[0], 'encode'), None), [args[1]], {}, fr, node)
+        return V(T.BYTEARRAY, b.t)
+    if name == 'bytearray' and not args:
+        return V(T.BYTEARRAY, z3.Empty(T.BytesSort))
+    raise_unsupported('call of type %s with %s' % (name, [getattr(a, 'ty', a) for a in args]))
 
 
 def b_int(eng, args, kwargs, fr, node):
@@ -707,7 +739,7 @@ BUILTIN_FUNCS = {
     'int': None,
     'unpack_tuple': b_unpack_tuple, 'calcsize': b_calcsize,
     'len': b_len, 'isinstance': b_isinstance, 'min': b_min, 'max': b_max, 'abs': b_abs, 'range': b_range,
-    'enumerate': b_enumerate, 'reversed': b_reversed, 'hasattr': b_hasattr, 'zip': b_zip, 'implies': b_implies, 'ite': b_ite, 'repr': b_repr,
+    'octets': b_octets, 'enumerate': b_enumerate, 'reversed': b_reversed, 'hasattr': b_hasattr, 'zip': b_zip, 'implies': b_implies, 'ite': b_ite, 'repr': b_repr,
 }
 
 
@@ -1121,6 +1153,115 @@ def listcomp(eng, node, fr):
 ANY_ELEM = ('any',)
 
 
+def _ibenv(eng):
+    return eng.st.__dict__.setdefault('ib', {'vars': {}, 'memo': {}})
+
+
+def note_bounds(eng, cond):
+    """an assumed fact `c <= v`, `v < c`, ... about an integer constant v narrows its interval for the rest of the path
+    (path conditions only grow, so a simplification justified now stays justified for every later obligation)"""
+    env = _ibenv(eng)
+    stack = [cond]
+    while stack:
+        c = stack.pop()
+        if z3.is_and(c):
+            stack.extend(c.children())
+            continue
+        if not z3.is_app(c) or c.num_args() != 2:
+            continue
+        k = c.decl().kind()
+        l, r = c.arg(0), c.arg(1)
+        if k not in (z3.Z3_OP_LE, z3.Z3_OP_LT, z3.Z3_OP_GE, z3.Z3_OP_GT) or l.sort() != z3.IntSort():
+            continue
+        if k in (z3.Z3_OP_GE, z3.Z3_OP_GT):      # l >= r  ==  r <= l
+            l, r = r, l
+            k = z3.Z3_OP_LE if k == z3.Z3_OP_GE else z3.Z3_OP_LT
+        strict = 1 if k == z3.Z3_OP_LT else 0
+        if z3.is_int_value(l) and z3.is_const(r) and r.decl().kind() == z3.Z3_OP_UNINTERPRETED:
+            lo, hi = env['vars'].get(r.get_id(), (r, None, None))[1:]
+            v = l.as_long() + strict
+            env['vars'][r.get_id()] = (r, v if lo is None else max(lo, v), hi)
+            env['memo'].clear()
+        elif z3.is_int_value(r) and z3.is_const(l) and l.decl().kind() == z3.Z3_OP_UNINTERPRETED:
+            lo, hi = env['vars'].get(l.get_id(), (l, None, None))[1:]
+            v = r.as_long() - strict
+            env['vars'][l.get_id()] = (l, lo, v if hi is None else min(hi, v))
+            env['memo'].clear()
+
+
+def ibounds(eng, t):
+    """sound syntactic interval of an Int term on the current path: (lo, hi) or None.  Only used to drop a `% c` that
+    cannot change its argument, so that the redundant masks of 32-bit emulation code normalise away before the solver
+    sees them."""
+    memo = _ibenv(eng)['memo']
+    i = t.get_id()
+    if i in memo and memo[i][0].eq(t):
+        return memo[i][1]
+    r = _ibounds(eng, t)
+    memo[i] = (t, r)
+    return r
+
+
+def _ibounds(eng, t):
+    if z3.is_int_value(t):
+        v = t.as_long()
+        return (v, v)
+    if not z3.is_app(t):
+        return None
+    k = t.decl().kind()
+    ch = t.children()
+    if k == z3.Z3_OP_UNINTERPRETED and not ch:
+        e = _ibenv(eng)['vars'].get(t.get_id())
+        if e is not None and e[0].eq(t) and e[1] is not None and e[2] is not None:
+            return (e[1], e[2])
+        return None
+    if k == z3.Z3_OP_BV2INT:
+        return (0, 2 ** ch[0].size() - 1)
+    bs = [ibounds(eng, c) for c in ch] if k in (z3.Z3_OP_ADD, z3.Z3_OP_MUL, z3.Z3_OP_MOD, z3.Z3_OP_IDIV) else None
+    if k == z3.Z3_OP_ADD:
+        if any(b is None for b in bs):
+            return None
+        return (sum(b[0] for b in bs), sum(b[1] for b in bs))
+    if k == z3.Z3_OP_MUL:
+        if any(b is None or b[0] < 0 for b in bs):
+            return None
+        lo = hi = 1
+        for b in bs:
+            lo, hi = lo * b[0], hi * b[1]
+        return (lo, hi)
+    if k == z3.Z3_OP_MOD:
+        if bs[1] is not None and bs[1][0] == bs[1][1] and bs[1][0] > 0:
+            c = bs[1][0]
+            if bs[0] is not None and 0 <= bs[0][0] and bs[0][1] < c:
+                return bs[0]
+            return (0, c - 1)
+        return None
+    if k == z3.Z3_OP_IDIV:
+        if bs[1] is not None and bs[1][0] == bs[1][1] and bs[1][0] > 0 and bs[0] is not None and bs[0][0] >= 0:
+            c = bs[1][0]
+            return (bs[0][0] // c, bs[0][1] // c)
+        return None
+    if k == z3.Z3_OP_ITE:
+        a, b = ibounds(eng, ch[1]), ibounds(eng, ch[2])
+        if a is None or b is None:
+            return None
+        return (min(a[0], b[0]), max(a[1], b[1]))
+    if k == z3.Z3_OP_UNINTERPRETED and t.decl().name() == 'pyxor':
+        a, b = ibounds(eng, ch[0]), ibounds(eng, ch[1])
+        if a is None or b is None or a[0] < 0 or b[0] < 0:
+            return None
+        return (0, 2 ** max(a[1].bit_length(), b[1].bit_length()) - 1)     # xor of non-negative ints sets no higher bit
+    return None
+
+
+def smod(eng, xt, c):
+    """xt % c for a constant c > 0, dropping the operation when the interval of xt shows it is the identity"""
+    b = ibounds(eng, xt)
+    if b is not None and 0 <= b[0] and b[1] < c:
+        return xt
+    return xt % c
+
+
 def bitop(eng, op, a, b):
     """Bitwise ops on mathematical ints: only masks of the form 2^k-1 and shifts by constants."""
     x, y = eng.num(a), eng.num(b)
@@ -1131,11 +1272,27 @@ def bitop(eng, op, a, b):
             if z3.is_int_value(q):
                 m = q.as_long()
                 if m >= 0 and (m + 1) & m == 0:
-                    return V(INT, p.t % (m + 1))
+                    return V(INT, smod(eng, p.t, m + 1))
+                if m < 0 and (-m) & (-m - 1) == 0:
+                    return V(INT, p.t - p.t % (-m))          # x & -(2^k): clear the k low bits (any sign of x)
     if isinstance(op, ast.LShift) and z3.is_int_value(yv) and yv.as_long() >= 0:
         return V(INT, x.t * (2 ** yv.as_long()))
     if isinstance(op, ast.RShift) and z3.is_int_value(yv) and yv.as_long() >= 0:
         return V(INT, x.t / (2 ** yv.as_long()))
+    if isinstance(op, ast.BitXor) and x.ty == INT and y.ty == INT:
+        # xor of mathematical ints: uninterpreted, with the facts the proofs use instantiated per application
+        # (trusted rule; cross-checked natively in the thorough tier through the spec functions that use ^)
+        from .engine import UF
+        f = UF('pyxor', z3.IntSort(), z3.IntSort(), z3.IntSort())
+        r = f(x.t, y.t)
+        bx, by = ibounds(eng, x.t), ibounds(eng, y.t)
+        if bx is not None and by is not None and bx[0] >= 0 and by[0] >= 0:
+            eng.axiom(z3.And(r >= 0, r <= ibounds(eng, r)[1]))
+        else:
+            # xor of non-negative ints is non-negative and sets no bit above the operands' highest
+            eng.axiom(z3.Implies(z3.And(x.t >= 0, y.t >= 0), r >= 0))
+            eng.axiom(z3.Implies(z3.And(x.t >= 0, y.t >= 0, x.t < 2 ** 32, y.t < 2 ** 32), r < 2 ** 32))
+        return V(INT, r)
     if eng.bvmode is not None:
         return eng.bvmode.bitop(eng, op, x, y)
     raise_unsupported('bitwise %s on symbolic ints' % type(op).__name__)
